@@ -37,7 +37,7 @@ def run(tier, replay):
         lib.kverif("txn", ["c05", "--out", obs, "--db", db, "--kinds", "create,delete"], timeout=3000)
     else:
         lib.kverif("txn", ["c05", "--out", obs, "--db", db, "--kinds", "create,modify,delete,reap,acp,oauth2,domain,schema",
-                           "--stride", 40], timeout=6000)
+                           "--stride", 80], timeout=6000)
     txn_common.cleanup(db)
     tv = lib.trace_validate("KTxnCrashTrace", obs, PID, timeout=1500)
     lines = lib.read_lines(obs)
@@ -61,7 +61,7 @@ def run(tier, replay):
         if r["a"] != "crash":
             continue
         which = "before" if r["rec"] == r["before"] else "after" if r["rec"] == r["after"] else "neither"
-        key = f"{r['kind']}/{r['point']}/{'crashed' if r['crashed'] else 'survived'}/{which}"
+        key = f"{r['kind']}/{txn_common.step_of(r['point'])}/{'crashed' if r['crashed'] else 'survived'}/{which}"
         classes[key] = classes.get(key, 0) + 1
     crashes = [r for r in recs if r["a"] == "crash"]
     if not replay and (not any(r["rec"] == r["after"] for r in crashes) or not any(r["rec"] == r["before"] for r in crashes)):
@@ -70,7 +70,7 @@ def run(tier, replay):
         "evaluations": len(crashes),
         "distinct_nontrivial": len(classes),
         "rule": "one evaluation = one child process killed at one storage / crash point of one transaction, followed by reopen, "
-                "verify() and a probe write; distinct = distinct (transaction kind, point name, child died or not, recovered = "
+                "verify() and a probe write; distinct = distinct (transaction kind, commit step of the point, child died or not, recovered = "
                 "before | after | neither); all are non-trivial (a process was killed mid-transaction or right after COMMIT)",
         "samples": lib.sample(lines),
         "classes": classes,
